@@ -7,36 +7,50 @@ from ..core import Violation, Discard
 
 ID = "C10"
 LEVEL = "exploration"
-RULE = ("Hypothesis-generated reaction states (c10gen.py): 1-3 initial solutions (phreeqc.dat / wateq4f.dat, pitzer.dat with "
-        "species gammas, iso.dat with isotope totals), a cell with any subset of EQUILIBRIUM_PHASES (options, alternative "
-        "formula), EXCHANGE (explicit / -equilibrate / related to a phase or a kinetic reactant), SURFACE (no_edl, DDL, CCM, "
-        "CD-MUSIC, -donnan thickness/debye lengths/viscosity, -diffuse_layer, only_counter_ions, sites density, mobile, "
-        "related to phase/kinetics), GAS_PHASE (fixed P / fixed V / -equilibrate), SOLID_SOLUTIONS (ideal, Guggenheim), "
-        "KINETICS (1-3 components, 1-3 parameters, RK/CVODE options), REACTION, REACTION_TEMPERATURE, REACTION_PRESSURE, MIX; "
-        "a history of 0-3 batch / RUN_CELLS steps (SAVE to the same or a new number, COPY cell); then DUMP -all, restore into "
-        "fresh instances (text, same-instance re-read, SOLUTION_MODIFY, StorageBin, Serializer, Phreeqc copy) and a follow-up "
-        "calculation (RUN_CELLS with time step or USE + new REACTION) whose ~60 USER_PUNCH values are compared. "
-        "Non-trivial = the dump holds >= 3 entity kinds or an entity with non-default sub-structure (measured on the dump: "
-        "species gammas, isotope totals, surface model other than plain DDL, related exchanger/surface, fixed-volume gas, "
-        "phase options, non-ideal solid solution, >=2 kinetic components or parameters, MIX, multi-step reaction/temperature/"
-        "pressure); distinct by SHA-256 of the case")
-ASSUMPTIONS = ["the dump writes 14 significant digits; follow-up results are compared (rel 1e-7) only for systems that are "
-               "well-conditioned with respect to that rounding: redox-inert element sets (pe not compared) or O2-poised ones, "
-               "always carrying >= 1e-4 mol/kgw carbonate as pH buffer; un-poised systems (Fe / nitrate without O2) only go "
-               "through the error-free, fixed-point, field-equality and in-memory clauses",
+RULE = ("Hypothesis-generated reaction states (vp/c10gen.py): 1-3 initial solutions (phreeqc.dat / wateq4f.dat; pitzer.dat -> "
+        "species gammas; iso.dat -> isotope totals D, T, [18O], [13C]), a cell with any subset of EQUILIBRIUM_PHASES (targets, "
+        "dissolve_only / precipitate_only / force_equality, alternative formula), EXCHANGE (explicit / -equilibrate / tied to a "
+        "phase or a kinetic reactant), SURFACE (no_edl, DDL, CCM, CD-MUSIC with capacitances, -donnan thickness / debye "
+        "lengths / viscosity / limit, -diffuse_layer, only_counter_ions, site density units, mobile Dw, tied to a phase, "
+        "explicit or -equilibrate), GAS_PHASE (fixed P / fixed V / -equilibrate, 1-4 components), SOLID_SOLUTIONS (ideal 2-3 "
+        "components, Guggenheim nondim/kJ/tempk, 1-2 per assemblage), KINETICS (1-3 components, 1-3 parameters, 1-2 formula "
+        "terms, RK / CVODE options), REACTION, REACTION_TEMPERATURE, REACTION_PRESSURE (lists or 'in n steps'), MIX; then a "
+        "history of 0-3 steps (batch with SAVE to the same or a new number, RUN_CELLS, COPY cell) with INCREMENTAL_REACTIONS "
+        "on/off; then DUMP -all.  The state is restored by 6 routes (text into another instance, re-read into the same "
+        "instance, third instance from the second dump, SOLUTION_MODIFY onto placeholders, cxxStorageBin into a fresh "
+        "instance and onto itself, Serializer, Phreeqc copy constructor) and a follow-up (RUN_CELLS with time step, or USE of "
+        "every reactant + optionally a new REACTION; 1-3 steps) punches 40-70 USER_PUNCH values per step.  Non-trivial = the "
+        "dump holds >= 3 entity kinds or an entity with non-default sub-structure, measured on the parsed dump (species "
+        "gammas, isotope totals, surface model other than plain DDL, tied exchanger/surface, fixed-volume gas, phase options, "
+        "non-ideal solid solution, >= 2 kinetic components / parameters / formula terms, MIX, multi-step reaction / "
+        "temperature / pressure); distinct by SHA-256 of the case")
+ASSUMPTIONS = ["the dump writes 14 significant digits; follow-up results are compared (1e-7 * scale + 10 * convergence_tolerance, "
+               "KNOBS -convergence_tolerance 1e-12; pressures + 0.001 atm, the engine's own fixed-volume criterion) only where the "
+               "follow-up is reproducible under noise of that size: redox-inert element sets (pe not compared) or O2-poised "
+               "ones, >= 1e-4 mol/kgw carbonate as pH buffer, and agreement (half the tolerance) between each copy and a replica "
+               "of it with amounts changed by +-3e-13 and another solver history; un-poised systems (Fe / nitrate without O2) "
+               "and irreproducible ones only go through the error-free, fixed-point, field-equality and in-memory text clauses",
                "fields the dump itself lists under '... workspace variables' are recomputed by the next calculation and may "
-               "differ between the first and the second dump; every other field must agree to 1e-12",
+               "differ between the first and the second dump (observed: gas component -p); every other field must agree to "
+               "1e-12; an exchanger/surface tied to a phase or kinetic reactant is re-scaled to moles x proportion whenever it "
+               "is read, so its amounts are compared as numbers (1e-12) in the fixed-point clause and not at all between first "
+               "and second dump",
                "settings that are not reaction state (KNOBS, INCREMENTAL_REACTIONS, USE, SELECTED_OUTPUT, time step and start "
-               "time) are spelled out in the follow-up input; database additions (RATES, SURFACE_SPECIES) are given to every instance",
-               "the C++ shim only calls phreeqc2cxxStorageBin / cxxStorageBin2phreeqc / Serializer / the Phreeqc copy constructor",
-               "SOLUTION -isotope entries are excluded by construction (known finding: their dump cannot be read back)"]
+               "time) are spelled out in the follow-up input; database additions (RATES, CD-MUSIC SURFACE_SPECIES) are given to "
+               "every instance; the SOLUTION_MODIFY placeholder has the temperature, pressure and water mass of the solution",
+               "the C++ shims only call public members (phreeqc2cxxStorageBin, cxxStorageBin2phreeqc, Serializer, Phreeqc copy "
+               "constructor, the entity maps' dump_raw)",
+               "excluded by construction, each a recorded finding with a replay under replays/C10/known: SOLUTION -isotope "
+               "entries, 'viscosity calc' of a Donnan layer, surfaces tied to a kinetic reactant, a tied phase that can be "
+               "exhausted, the Phreeqc copy of a pitzer.dat/sit.dat engine, -viscos_0 in the Serializer text comparison"]
 TECHNIQUE = "property-based testing (Hypothesis): round-trip / differential oracle over dump text and follow-up selected output"
 LEVEL_TEXT = ("Exploration: generated reaction states of every entity kind are dumped, restored through six routes and re-dumped; "
-              "texts must be error-free, a fixed point after one cycle and field-equal, and a follow-up calculation must give the "
-              "same results on every restored copy as on the original.")
+              "reading must be error-free, the second dump a fixed point and field-equal to the first, in-memory copies "
+              "text-identical, and a follow-up calculation must give the same results (1e-7) on every restored copy as on the "
+              "original wherever the engine's answer is reproducible under noise.")
 FLOORS = {"quick": 150, "thorough": 1500}
 SHARDS = {"quick": 4, "thorough": 4}   # DEV: restore 8/16
-BUDGET = {"quick": 60, "thorough": 700, "replay": 1}
+BUDGET = {"quick": 80, "thorough": 450, "replay": 1}
 
 RTOL = 1e-7           # property statement
 FIELD_RTOL = 1e-12    # D1 vs D2, non-workspace fields (DESIGN C10)
@@ -243,6 +257,17 @@ def field_diff(F1, F2):
             if fx is None or fy is None or not abs(fx - fy) <= FIELD_RTOL * max(abs(fx), abs(fy)):
                 out.append((p, a[0], b[0]))
                 break
+    return out
+
+
+def workspace_diffs(F1, F2):
+    """names (KIND/-option) of workspace variables whose value differs between the two dumps (for the evidence histogram)"""
+    out = set()
+    for p in set(F1) & set(F2):
+        a, b = F1[p], F2[p]
+        if (a[1] or b[1]) and a[0] != b[0]:
+            opt = [e for e in p[1:] if e.startswith("-")]
+            out.add("%s/%s" % (p[0].split()[0], opt[-1].split()[0].split("#")[0] if opt else "row"))
     return out
 
 
@@ -633,6 +658,8 @@ def _check(case, ctx, inst):
     D2 = dump_of(B, "dump")
     # (2b) every field that is not a workspace variable survives the cycle
     F2 = fields(D2)
+    for w in sorted(workspace_diffs(F1, F2)):
+        classes.append("workspace_variable_changed_by_cycle:" + w)
     fd = field_diff(F1, F2)
     if fd:
         p, a, b = fd[0]
